@@ -7,8 +7,8 @@ from rules.c06 import memc_paths, read_outcome, store_method_for_opcode, handler
 from rules.storefacts import field_of
 
 LEVEL_TEXT = (
-    "Static clause check: R1 dispatch rows (0x05/0x15 -> increment, 0x06/0x16 -> decrement) and the bool that selects "
-    "the + resp. the saturating - computation (decided on the public increment/decrement with their shared helper inlined); R2 arithmetic shape (the increment must be computed by "
+    "Static clause check: R1 dispatch rows (0x05/0x15 and 0x06/0x16 are each executed by one MemcStore entry — the public increment / decrement, or the method the handler calls instead with its constant arguments — loud and quiet alike, the two commands by different ones) and what selects "
+    "the + resp. the saturating - computation (decided on that entry with its helpers inlined); R2 arithmetic shape (the increment must be computed by "
     "an operation that cannot trap: an overflow-checked + on two client-controlled u64 is a violation; decrement: "
     "delta > value -> 0, otherwise value - delta); R3 what is stored and returned, on every successful existing-key path (exactly one store; record.value <- to_string(result), "
     "DeltaResult.value <- the same result, the stored header is the fetched one with only cas taken from the request: the "
@@ -23,19 +23,27 @@ ASSUMPTIONS = [
 DEV_ONLY = ("C07.R2",)  # the overflow assert exists only in a build with overflow checks
 
 
+DELTA_NAMES = ("self", "header", "key", "delta")
+
+
+def delta_entry(ctx, increment):
+    """the MemcStore method (and its constant extra arguments) that executes an Increment resp. Decrement request"""
+    return dispatch.store_entry(ctx, "Increment" if increment else "Decrement", DELTA_NAMES)
+
+
 def delta_body(ctx, increment):
-    return ctx.facts.one(MEMC + ("::increment" if increment else "::decrement"))
+    return delta_entry(ctx, increment)[0]
 
 
 def delta_paths(ctx, increment, seeds=None):
-    """paths of the public MemcStore::increment / decrement (whatever private helper they share is inlined)"""
+    """paths of the command-layer entry of incr / decr — the public MemcStore::increment / decrement, or whatever
+    crate-visible method the handler calls instead, with its constant arguments (private helpers are inlined)"""
     key = "delta_paths:%s" % increment
+    b, args, _c = delta_entry(ctx, increment)
     if seeds is not None:
-        b = delta_body(ctx, increment)
-        return b, Interp(ctx.facts).run(b, [P("self"), P("header"), P("key"), P("delta")], seeds=seeds)
+        return b, Interp(ctx.facts).run(b, list(args), seeds=seeds)
     if key not in ctx._cache:
-        b = delta_body(ctx, increment)
-        ctx._cache[key] = (b, Interp(ctx.facts).run(b, [P("self"), P("header"), P("key"), P("delta")]))
+        ctx._cache[key] = (b, Interp(ctx.facts).run(b, list(args)))
     return ctx._cache[key]
 
 
@@ -66,8 +74,14 @@ def r1(ctx):
     for op, (variant, meth) in rows.items():
         somes, _t = decoded_variant(ctx, op)
         rep.check(somes == [variant], "decode:%#04x" % op, "%#04x decodes to %s" % (op, variant), "opcode %#04x decodes to %s, the protocol says %s" % (op, somes, variant), safe_loc(f, CODEC + "::parse_request"))
-        hm = dispatch.store_methods_of_variant(ctx, variant)
-        rep.check(hm == {meth}, "handle:%s" % variant, "%s is dispatched to MemcStore::%s" % (variant, meth), "request variant %s reaches MemcStore::%s, expected MemcStore::%s only" % (variant, sorted(hm or []), meth), safe_loc(f, HANDLER + "::handle_request"))
+        # the quiet opcode is executed by the same store method with the same constant arguments as the loud one, and
+        # increment and decrement by different ones; which of them adds is the direction check below
+        loud = "Increment" if meth == "increment" else "Decrement"
+        eb, _a, ec = dispatch.store_entry(ctx, variant, DELTA_NAMES)
+        lb, _a2, lc = dispatch.store_entry(ctx, loud, DELTA_NAMES)
+        ob, _a3, oc = dispatch.store_entry(ctx, "Decrement" if loud == "Increment" else "Increment", DELTA_NAMES)
+        sig = lambda b_, c_: (b_.path, [repr(tform(x)) for x in c_])
+        rep.check(sig(eb, ec) == sig(lb, lc) and sig(eb, ec) != sig(ob, oc), "handle:%s" % variant, "%s is executed by MemcStore::%s%s" % (variant, eb.name, "(.., %s)" % ", ".join(short(x, 30) for x in ec) if ec else ""), "request variant %s is executed by MemcStore::%s %s — %s" % (variant, eb.name, [short(x, 30) for x in ec], "not what executes %s" % loud if sig(eb, ec) != sig(lb, lc) else "the same as the opposite command"), safe_loc(f, HANDLER + "::handle_request"))
     for meth, flag in (("increment", 1), ("decrement", 0)):
         argn = "inc_request" if meth == "increment" else "dec_request"
         hb, hargs = dispatch.handler_body_args(ctx, meth, argn)
@@ -77,7 +91,8 @@ def r1(ctx):
             for e in p.events:
                 if e.kind == "call" and e.name.startswith(MEMC + "::"):
                     called.add(e.name.split("::")[-1])
-        rep.check(called == {meth}, "handler->store:%s" % meth, "BinaryHandler::%s calls MemcStore::%s" % (meth, meth), "BinaryHandler::%s calls MemcStore::%s" % (meth, sorted(called)), hb.loc())
+        want_m = delta_body(ctx, flag).name
+        rep.check(called == {want_m}, "handler->store:%s" % meth, "the handler's %s path calls MemcStore::%s" % (meth, want_m), "the handler's %s path calls MemcStore::%s" % (meth, sorted(called)), hb.loc())
         # direction: the public method computes value (+) delta resp. value (-) delta on the existing-key path
         sb, paths = delta_paths(ctx, flag)
         dirs = set()
@@ -118,8 +133,8 @@ def r2(ctx):
     import callgraph
 
     cg = callgraph.get(ctx)
-    b0 = f.one(MEMC + "::increment")
-    under = sorted(x for x in cg.reachable([MEMC + "::increment"]) if x.startswith(MEMC + "::") and x in f.bodies)
+    b0 = delta_body(ctx, 1)
+    under = sorted(x for x in cg.reachable([b0.path]) if x.startswith(MEMC + "::") and x in f.bodies)
     # (a) no overflow-asserted Add on non-constant operands anywhere under the command (its helpers and closures)
     n_add = 0
     for b in [f.bodies[x] for x in under]:
